@@ -139,6 +139,7 @@ type Result struct {
 	Coded    bool
 	Body     string
 	Complete bool
+	KeepErr  bool // the service-error writer is a handler of the harness: its event is compared
 	Hdr      [][2]string // X-H* and Allow headers as sent
 	Log      []Event
 	Escaped  *string
@@ -168,8 +169,8 @@ func (r *Result) Canon(blankBody bool) string {
 	}
 	fmt.Fprintf(&sb, "(res (st %d) (ce %s) (body %s) (complete %v) %s (log", r.Status, sx.H(r.CE), sx.H(body), r.Complete, kvs("hdr", r.Hdr, true))
 	for _, e := range r.Log {
-		if e.Stage == "err" {
-			continue // the service-error writer is library code: it records nothing on the real side
+		if e.Stage == "err" && !r.KeepErr {
+			continue // the library's own service-error writer records nothing on the real side
 		}
 		attrs, params := e.Attrs, e.Params
 		if e.Stage == "plain" || e.Stage == "rec" {
